@@ -125,6 +125,12 @@ func Cover(label string) { Covers = append(Covers, label) }
 // Observe records a value for engine-vs-native comparison.
 func Observe(name string, v any) { Observed = append(Observed, fmt.Sprintf("%s=%v", name, v)) }
 
+// HonestSignature (engine only) returns a fresh signature by public key pk over
+// the prepared message msg and records (pk, msg, sig) as honestly signed; the
+// engine's model of ed25519 verification accepts exactly the recorded triples.
+// Natively harnesses sign with a real key instead (guarded by Symbolic()).
+func HonestSignature(pk, msg []byte) []byte { panic("verifsymx.HonestSignature is engine-only") }
+
 // MapOrderBegin/End bracket a region in which the engine explores every
 // iteration order of every ranged-over map (no-op natively).
 func MapOrderBegin() {}
